@@ -205,8 +205,8 @@ func TestC33(t *testing.T) {
 	}
 	seed := ev.Seed()
 	// (1) limits, user change, last-invocation rule: bounded-exhaustive
-	stride := uint64(ev.Scale(40, 4))
-	enumerate(t, c, "C33", limitProfiles(), limitAlphabet(), 3, func(idx uint64) bool { return mixSeed(idx^seed)%stride == 0 }, c33Nontrivial, true)
+	stride := uint64(scale(3, 4))
+	enumerate(t, c, "C33", limitProfiles(), limitAlphabet(), scale(2, 3), func(idx uint64) bool { return mixSeed(idx^seed)%stride == 0 }, c33Nontrivial, true)
 
 	// (2) long histories around the 128-request cap and large MaxAuthTries
 	unit := 0
@@ -226,7 +226,7 @@ func TestC33(t *testing.T) {
 				if !ev.Mine(unit) {
 					continue
 				}
-				if !ev.Thorough() && (k == 126 || k == 139) && mixSeed(uint64(unit)^seed)%3 != 0 {
+				if !deep() && (k == 126 || k == 139) && mixSeed(uint64(unit)^seed)%3 != 0 {
 					continue
 				}
 				spec := ra.Spec{MaxAuthTries: max, Remote: homeRemote, Stages: []ra.Stage{
@@ -258,7 +258,7 @@ func TestC33(t *testing.T) {
 				if !ev.Mine(unit) {
 					continue
 				}
-				if !ev.Thorough() && mixSeed(uint64(vi*100000+ri*1000+li)^seed)%4 != 0 {
+				if !deep() && mixSeed(uint64(vi*100000+ri*1000+li)^seed)%4 != 0 {
 					continue
 				}
 				cs := srcCase(variant, list, remote, li%2 == 0)
